@@ -110,6 +110,54 @@ CrashConsistent(s, w) ==
   /\ \A k \in DOMAIN s.w[w].outs : (s.w[w].outs[k].st = "Unconfirmed" /\ ~s.w[w].outs[k].cb) =>
         TxKeyOf(s.w[w].outs[k].acct, s.w[w].outs[k].tx) \in DOMAIN s.w[w].txs
 
+\* ---- C16 / C18 ----------------------------------------------------------
+\* what the chain holds for the seed of wallet w (ground truth: `utxo` is the real
+\* chain's unspent set restricted to registered outputs, s.reg what each reveals)
+TruthOuts(s, w, utxo) == {o \in utxo : o \in DOMAIN s.reg /\ s.reg[o].seed = s.w[w].seed}
+\* after a scan: every chain output of the seed has a usable record of the right value;
+\* every Unspent record of the active account is on the chain; with del nothing on the
+\* chain stays reserved and no Unconfirmed record is left
+ScanEqualsTruth(s, w, utxo, del, h) ==
+  LET O == s.w[w].outs  T == TruthOuts(s, w, utxo)
+      rec(o) == {k \in DOMAIN O : (k = s.reg[o].key \/ k = s.reg[o].key \o "+m") /\ O[k].v = s.reg[o].v} IN
+  /\ \A o \in T : \E k \in rec(o) :
+        /\ O[k].st \in (IF del THEN {"Unspent"} ELSE {"Unspent", "Locked"})
+        /\ O[k].cb = s.reg[o].cb
+  /\ \A k \in DOMAIN O : (O[k].st = "Unspent" /\ O[k].acct = s.w[w].active) => OutId(s.w[w].seed, k) \in utxo
+                                                                              \/ \E o \in T : k \in rec(o)
+  /\ del => \A k \in DOMAIN O : O[k].st # "Unconfirmed"
+\* a freshly restored wallet holds exactly the truth, with the right height, maturity, account
+RestoredExact(s, w, utxo, hOf(_)) ==
+  LET O == s.w[w].outs  T == TruthOuts(s, w, utxo) IN
+  /\ {k \in DOMAIN O : O[k].st = "Unspent"} = {s.reg[o].key : o \in T}
+  /\ \A o \in T : LET r == s.reg[o]  k == r.key IN
+        k \in DOMAIN O => /\ O[k].v = r.v /\ O[k].cb = r.cb /\ O[k].acct = r.pa
+                           /\ O[k].h = hOf(o) /\ O[k].lk = (IF r.cb THEN hOf(o) + Maturity ELSE hOf(o))
+  /\ \A a \in DOMAIN s.w[w].idx :
+        \A o \in T : s.reg[o].pa = a => s.w[w].idx[a].child > s.reg[o].n     \* C15 RestoreBeyond
+\* C18: a confirmed incoming payment whose output left the chain and whose kernel is gone
+VanishedReceived(s, w, utxo) ==
+  {t \in DOMAIN s.w[w].txs :
+     LET e == s.w[w].txs[t] IN
+     /\ e.ty = "TxReceived" /\ e.conf /\ e.acct = s.w[w].active /\ e.kern # ""
+     /\ \E k \in DOMAIN s.w[w].outs : s.w[w].outs[k].tx = e.id /\ s.w[w].outs[k].acct = e.acct
+                                       /\ s.w[w].outs[k].st = "Unspent" /\ ~s.w[w].outs[k].cb
+                                       /\ OutId(s.w[w].seed, k) \notin utxo
+     /\ ~KernelOnChain(s, e.kern, MaxOf(e.minh, 0), Height(s))}
+RevertedReported(s, s2, w, utxo) ==
+  \A t \in VanishedReceived([s EXCEPT !.chain = s2.chain, !.body = s2.body], w, utxo) :
+     /\ s2.w[w].txs[t].ty = "TxReverted" /\ ~s2.w[w].txs[t].conf
+     /\ \A k \in DOMAIN s2.w[w].outs :
+          (s2.w[w].outs[k].tx = s2.w[w].txs[t].id /\ s2.w[w].outs[k].acct = s2.w[w].txs[t].acct /\ ~s2.w[w].outs[k].cb)
+             => s2.w[w].outs[k].st \in {"Reverted", "Spent"}
+\* a reverted output that is back on the chain is confirmed and spendable again after a refresh
+RevertedRestored(s, s2, w, utxo) ==
+  \A k \in DOMAIN s.w[w].outs :
+     (s.w[w].outs[k].st = "Reverted" /\ s.w[w].outs[k].acct = s.w[w].active /\ OutId(s.w[w].seed, k) \in utxo)
+        => /\ k \in DOMAIN s2.w[w].outs /\ s2.w[w].outs[k].st = "Unspent"
+           /\ LET t == TxKeyOf(s.w[w].outs[k].acct, s.w[w].outs[k].tx) IN
+              t \in DOMAIN s2.w[w].txs => (s2.w[w].txs[t].ty = "TxReceived" /\ s2.w[w].txs[t].conf)
+
 \* ---- C15 --------------------------------------------------------------
 \* a key handed out for a new output was never handed out before
 PathFresh(hv, w, key) == key \notin hv.issued[w]
